@@ -745,6 +745,8 @@ func (p *Process) onStateChange(state string) {
 	switch state {
 	case types.ProcessStateSkipped:
 		p.setExitCode(1)
+	case types.ProcessStateError:
+		p.setExitCode(1)
 	case types.ProcessStateRestarting:
 		fallthrough
 	case types.ProcessStateLaunching:
